@@ -184,7 +184,7 @@ func (si *smfimport) mkBars() {
 		s.AddBar(b)
 		//fmt.Printf("bar added\n")
 
-		lastTick = tickspassed
+		lastTick = ts.AbsTicks
 	}
 
 	//fmt.Printf("totalTicks: %v currAbsTick: %v\n", totalTicks, currAbsTick)
